@@ -102,6 +102,12 @@ struct Inner {
     n_access: usize,
     fault: Option<(usize, FaultKind)>,
     malformed_cmds: usize,
+    /// (endpoint, length) of every bulk-in transfer submitted on a receive channel
+    submitted: Vec<(u8, usize)>,
+    next_transfer: u64,
+    /// (address of SI_CONTROL, address, data): registers the device keeps frozen while the stream
+    /// is enabled and publishes as soon as a write clears the stream-enable bit
+    publish_on_disable: Option<(u64, u64, Vec<u8>)>,
 }
 
 impl Inner {
@@ -137,6 +143,9 @@ impl FakeUsb {
             n_access: 0,
             fault: None,
             malformed_cmds: 0,
+            submitted: vec![],
+            next_transfer: 0,
+            publish_on_disable: None,
         })))
     }
     /// Start a new observed operation: empty log, access counter 0, optional fault.
@@ -153,6 +162,19 @@ impl FakeUsb {
     }
     pub fn regions(&self) -> Vec<Region> {
         self.0.lock().unwrap().regions.clone()
+    }
+    /// The device holds back a register update until the host disables the stream.
+    pub fn publish_on_disable(&self, si_control: u64, addr: u64, data: Vec<u8>) {
+        self.0.lock().unwrap().publish_on_disable = Some((si_control, addr, data));
+    }
+    /// Lengths of the stream transfers submitted so far; `clear` empties the ledger.
+    pub fn submitted(&self, clear: bool) -> Vec<(u8, usize)> {
+        let mut g = self.0.lock().unwrap();
+        if clear {
+            std::mem::take(&mut g.submitted)
+        } else {
+            g.submitted.clone()
+        }
     }
     pub fn malformed_cmds(&self) -> usize {
         self.0.lock().unwrap().malformed_cmds
@@ -252,6 +274,16 @@ impl VerifUsb for FakeUsb {
             let mut apply = |g: &mut Inner| {
                 if let Some((i, o)) = place {
                     g.regions[i].data[o..o + data.len()].copy_from_slice(&data);
+                    // a write that clears the stream-enable bit lets the device publish the
+                    // registers it kept frozen while streaming
+                    if let Some((ctrl, pa, pd)) = g.publish_on_disable.clone() {
+                        if addr <= ctrl && ctrl < addr + data.len() as u64 && data[(ctrl - addr) as usize] & 1 == 0 {
+                            if let Some((pi, po)) = g.find(pa, pd.len()) {
+                                g.regions[pi].data[po..po + pd.len()].copy_from_slice(&pd);
+                            }
+                            g.publish_on_disable = None;
+                        }
+                    }
                     true
                 } else {
                     false
@@ -292,11 +324,16 @@ impl VerifUsb for FakeUsb {
     fn write_control(&self, _rt: u8, _r: u8, _v: u16, _i: u16, buf: &[u8], _t: Duration) -> Result<usize, LibUsbError> {
         Ok(buf.len())
     }
-    fn submit_bulk(&self, _ep: u8, _len: usize) -> Result<u64, LibUsbError> {
-        Err(LibUsbError::NotSupported)
+    // the camera never sends a frame: every transfer is recorded and times out
+    fn submit_bulk(&self, ep: u8, len: usize) -> Result<u64, LibUsbError> {
+        let mut g = self.0.lock().unwrap();
+        g.submitted.push((ep, len));
+        g.next_transfer += 1;
+        Ok(g.next_transfer)
     }
     fn poll_bulk(&self, _id: u64, _t: Duration) -> VerifPoll {
-        VerifPoll::Pending
+        std::thread::sleep(Duration::from_micros(100));
+        VerifPoll::Completed(Err(LibUsbError::Timeout))
     }
     fn cancel_bulk(&self, _id: u64) {}
 }
@@ -341,20 +378,31 @@ pub fn sbrm_region(base: u64, u3vcp_capability: u64, max_cmd: u32, max_ack: u32,
     Region { base, data: d }
 }
 
+pub const STREAM_EP: u8 = 0x82;
+
 /// Build the device + an opened control handle over the fake.  `Err` = open failed / panicked.
 pub fn open_handle(usb: &Arc<FakeUsb>) -> Result<ControlHandle, String> {
-    use cameleon::DeviceControl;
+    open_both(usb).map(|x| x.0)
+}
+
+/// Control handle and (opened) stream handle of the same device.
+pub fn open_both(usb: &Arc<FakeUsb>) -> Result<(ControlHandle, cameleon::u3v::StreamHandle), String> {
+    use cameleon::{DeviceControl, PayloadStream};
     let dev = Device::verif_new(
         usb.clone(),
         ControlIfaceInfo { iface_number: 0, bulk_in_ep: 0x81, bulk_out_ep: 0x01 },
         None,
-        Some(ReceiveIfaceInfo { iface_number: 1, bulk_in_ep: 0x82 }),
+        Some(ReceiveIfaceInfo { iface_number: 1, bulk_in_ep: STREAM_EP }),
         device_info(),
     );
     let r = camharness::catch(|| {
         let mut h = ControlHandle::verif_new(&dev).map_err(|e| format!("new: {e}"))?;
         h.open().map_err(|e| format!("open: {e}"))?;
-        Ok::<_, String>(h)
+        let mut strm = cameleon::u3v::StreamHandle::verif_new(&dev)
+            .map_err(|e| format!("stream new: {e}"))?
+            .ok_or("no stream channel")?;
+        strm.open().map_err(|e| format!("stream open: {e}"))?;
+        Ok::<_, String>((h, strm))
     });
     match r {
         Ok(r) => r,
